@@ -648,6 +648,24 @@ example : (match RbV.Thm.GenSrcPoaHistory.srcHistory (Poa.Model.chainG [65, 67, 
     | .ok g => decide (4 ≤ g.labels.length)
     | _ => false) = true := by decide +kernel
 
+/-- **totality of the translated `Poa::add_alignment` on valid operation lists** (hard): non-empty graph whose topological head
+is a node, sequence shorter than `2^64`, operation list valid for sequence and graph (`SeqOK`: every consumed position
+`seq[i]` exists — `Yclip(_, r)` continues at `r` —, every named node exists), fewer than `2^31 − 1` operations and every edge
+weight with room for that many `+ 1`s (the explicit size hypothesis): the translated function **returns**, and returns
+`Model.addAlignment`.  Missing for "no panic on traceback-produced lists": that `Model.traceF` over the (local, column-monotone)
+source table only emits `SeqOK` lists — needs "`Yclip(_, d)` stored in column `j` has `d = j`" and "`Match(Some((_, p)))` has
+`p <` node count" threaded through `OInv` —, and that `Traceback::alignment` ends within its fuel (a termination argument). -/
+theorem poa_add_alignment_source_total_on_valid_lists (g : Poa.Model.G) (aln : Rs.Poa.Alignment) (seq : List Nat)
+    (hh : ∃ hd, (Poa.Model.topo g.labels.length g.es).head? = some hd ∧ hd < g.labels.length) (hn : seq.length < 2 ^ 64)
+    (hK : (aln.operations.length : Int) < 2147483647)
+    (hw : ∀ e ∈ g.es, -2147483648 ≤ e.2.2 ∧ e.2.2 + (aln.operations.length : Int) ≤ 2147483647)
+    (hs : RbV.Thm.GenSrcPoaAdd.SeqOK seq.length g.labels.length 0 aln.operations) :
+    RbV.Gen.SrcPoaAdd.add_alignment g aln seq = Rs.Res.ok (Poa.Model.addAlignment g aln.operations seq) :=
+  RbV.Thm.GenSrcPoaAdd.add_alignment_total g aln seq hh hn hK hw hs
+
+example : RbV.Thm.GenSrcPoaAdd.SeqOK 3 3 0 [.m none, .m (some (0, 1)), .m (some (1, 2))] :=
+  ⟨by decide, by decide, by decide, by decide, by decide, trivial⟩
+
 /-- **`Traceback::get` as translated = `BRow.get` of the mirror** on every row that represents a model row (`RowRep`: same
 band, cells equal up to the `MIN_SCORE` padding `new_row` allocates), with its three out-of-band answers -/
 theorem poa_traceback_get_source_eq_model (tb : Rs.Poa.Traceback) (i j : Nat) (rr : List Poa.Model.Cell × Nat × Nat)
